@@ -874,6 +874,9 @@ func (t *Topic) handleLeaveRequest(msg *ClientComMessage, sess *Session) {
 				sess.queueOut(NoErrReply(msg, now))
 			}
 		}
+	} else if msg.init {
+		// The session is not attached to this topic on behalf of this user.
+		sess.queueOut(InfoNotJoined(msg.Id, msg.Original, now))
 	}
 }
 
